@@ -1298,6 +1298,9 @@ def _rng_states():
     return hashlib.sha1(repr((st[0], st[1].tobytes(), st[2:], _pyrandom.getstate())).encode()).hexdigest()
 
 
+TRACE_CAP = 48
+
+
 def _run_rng_trace(case):
     i = case["in"]
     env = fresh_env(i["ds"])
@@ -1311,7 +1314,10 @@ def _run_rng_trace(case):
         # the global generators moved although no call went through the module-level functions (a library drawing
         # from numpy's singleton RandomState directly, e.g. scipy.cluster.vq.kmeans2): an unseeded draw
         trace = [["draw", "hidden"]]
-    return {"trace": trace}
+    # the model is handed the first TRACE_CAP operations: a recorded trace is accepted as a PREFIX of a path of the
+    # skeleton, so a prefix of it is accepted whenever the whole is, and whether a draw precedes the first seeding is
+    # decided at the very start; hundreds of identical draws only make the (backtracking) matcher slow
+    return {"trace": trace[:TRACE_CAP], "trace_len": len(trace)}
 
 
 # ---------------------------------------------------------------------------------------------
